@@ -243,6 +243,9 @@ func c14History(c *ev.Ctx) {
 	sb := testSB()
 	var hist []c14Op
 	crossedCapacity, didReload, collisionLive := false, false, false
+	var backing *memio.File // the file the current tree was loaded from (nil: built in memory)
+	var backingAddr uint64
+	writeAtSessions := 0
 	fail := func(key string, detail any) {
 		trimmed := hist
 		if len(trimmed) > 60 {
@@ -447,8 +450,48 @@ func c14History(c *ev.Ctx) {
 				return
 			}
 		case 4: // write out and load back (both fresh-write and in-place paths)
+			if backing != nil && r.Bool() {
+				// a modify session on a tree that was loaded from a file: write back in place, load
+				// again, continue on the loaded copy. Nothing before the tree's own blocks may
+				// change (the file's other content), the reloaded tree equals the model.
+				hist = append(hist, c14Op{"writeat+load", "", 0})
+				before := backing.Snapshot()
+				if err := bt.WriteAt(backing, sb); err != nil {
+					fail("persist:writeat-failed:"+tag(), err.Error())
+					return
+				}
+				after := backing.Snapshot()
+				// the tree's blocks were allocated from offset 2048 on; the 2048 bytes in front of
+				// them stand for the rest of the file (superblock, other objects)
+				for i := 0; i < 2048 && i < len(before) && i < len(after); i++ {
+					if before[i] != after[i] {
+						fail("persist:writeat-outside-tree:"+tag(), fmt.Sprintf("byte %d in front of the tree's blocks changed from %02x to %02x; records in the tree: %d", i, before[i], after[i], len(model)))
+						return
+					}
+				}
+				nb := structures.NewWritableBTreeV2(cs.NodeSize)
+				if err := nb.LoadFromFile(backing, backingAddr, sb); err != nil {
+					fail("persist:load-after-writeat-failed:"+tag(), err.Error())
+					return
+				}
+				if !recordsEqual(bt.GetRecords(), nb.GetRecords()) {
+					fail("persist:writeat-record:"+tag(), "records differ after WriteAt + load")
+					return
+				}
+				if msg := c14CheckBytes(backing, backingAddr, len(model)); msg != "" {
+					fail("persist:bytes:"+tag(), msg)
+					return
+				}
+				if cs.Mode == "lazy" {
+					nb.EnableLazyRebalancing(structures.DefaultLazyConfig())
+				}
+				bt = nb
+				writeAtSessions++
+				break
+			}
 			hist = append(hist, c14Op{"write+load", "", 0})
 			mf := memio.New(2048)
+			_, _ = mf.WriteAt(bytes.Repeat([]byte{0x5A}, 2048), 0) // stands for the rest of the file
 			addr, err := bt.WriteToFile(mf, mf, sb)
 			if err != nil {
 				fail("persist:write-failed:"+tag(), err.Error())
@@ -484,6 +527,7 @@ func c14History(c *ev.Ctx) {
 				}
 				bt = nb
 				didReload = true
+				backing, backingAddr = mf, addr
 				// in-place rewrite must reproduce too
 				if err := bt.WriteAt(mf, sb); err != nil {
 					fail("persist:writeat-failed:"+tag(), err.Error())
@@ -537,6 +581,7 @@ done:
 		}
 	}
 record:
+	c.Count("in_place_write_back_sessions", int64(writeAtSessions))
 	desc := fmt.Sprintf("%s|ns%d|cap%v|reload%v|coll%v|ops%d|live%d", cs.Mode, cs.NodeSize, crossedCapacity, didReload, collisionLive, len(hist)/20, len(model)/20)
 	c.Case(desc, len(hist) >= 3)
 	c.Count("mode:"+cs.Mode, 1)
